@@ -191,6 +191,11 @@ pub fn prop() -> HistProp {
     // whale orders sized so that the following whole close lands on the band's edge
     w.edge_close = 4;
     w.vcfg = 2;
+    // the largest whale order the band still accepts (or one unit beside it): the price sits exactly on the band's edge
+    w.edge = 4;
+    // whitelist edits and pauser hand-overs in between (neither lifts the band)
+    w.whitelist = 2;
+    w.handover = 1;
     HistProp {
         id: "C15",
         level: "exploration",
